@@ -866,8 +866,8 @@ def parse_insn_operand(ctx, insn_name, operand_idx, **kwargs):
     else:
         operand_type = int
 
-    assert operand_type in (str, int)
-
+    # An operand in the position of a code block (e.g. '.repeat 5, 6') is parsed as an expression;
+    # the compiler reports the wrong operand count
     if operand_type is str:
         return long_string(ctx, **kwargs)
     else:
